@@ -13,7 +13,7 @@ use nom::{
     bytes::complete::{take, take_while, take_while1},
     character::complete::{anychar, digit1, multispace0, multispace1, none_of, satisfy},
     character::{is_alphabetic, is_alphanumeric},
-    combinator::{eof, map, map_res, opt, peek, recognize},
+    combinator::{eof, map, map_opt, map_res, opt, peek, recognize},
     error::ParseError,
     multi::{many0, many_till, separated_list0, separated_list1},
     number::complete::double,
@@ -328,7 +328,11 @@ where
                         return Ok((remaining, o2));
                     }
 
-                    let step = remaining.fragment().chars().next().map_or(1, char::len_utf8);
+                    let step = remaining
+                        .fragment()
+                        .chars()
+                        .next()
+                        .map_or(1, char::len_utf8);
                     remaining = remaining.slice(step..);
                     let end = remaining.location_offset();
                     let res = third.parse(remaining);
@@ -840,24 +844,34 @@ fn is_keyword(c: char) -> bool {
 fn duration_fragment(input: Span) -> IResult<Span, chrono::Duration> {
     let (input, amount) = i64_parse(input)?;
 
-    alt((
-        tag("ns").map(move |_| chrono::Duration::nanoseconds(amount)),
-        tag("us").map(move |_| chrono::Duration::microseconds(amount)),
-        tag("ms").map(move |_| chrono::Duration::milliseconds(amount)),
-        tag("s").map(move |_| chrono::Duration::seconds(amount)),
-        tag("m").map(move |_| chrono::Duration::minutes(amount)),
-        tag("h").map(move |_| chrono::Duration::hours(amount)),
-        tag("d").map(move |_| chrono::Duration::days(amount)),
-        tag("w").map(move |_| chrono::Duration::weeks(amount)),
-    ))
+    // the checked constructors: an amount outside chrono's range is not a duration literal
+    map_opt(
+        alt((
+            tag("ns").map(move |_| Some(chrono::Duration::nanoseconds(amount))),
+            tag("us").map(move |_| Some(chrono::Duration::microseconds(amount))),
+            tag("ms").map(move |_| chrono::Duration::try_milliseconds(amount)),
+            tag("s").map(move |_| chrono::Duration::try_seconds(amount)),
+            tag("m").map(move |_| chrono::Duration::try_minutes(amount)),
+            tag("h").map(move |_| chrono::Duration::try_hours(amount)),
+            tag("d").map(move |_| chrono::Duration::try_days(amount)),
+            tag("w").map(move |_| chrono::Duration::try_weeks(amount)),
+        )),
+        |d| d,
+    )
     .parse(input)
 }
 
 /// Parses a duration that can be made up of multiple integer/time-suffix values
 fn duration(input: Span) -> IResult<Span, chrono::Duration> {
-    fold_many1(duration_fragment, chrono::Duration::zero, |left, right| {
-        left + right
-    })(input)
+    map_opt(
+        fold_many1(
+            duration_fragment,
+            || Some(chrono::Duration::zero()),
+            |left, right| left.and_then(|l| l.checked_add(&right)),
+        ),
+        |d| d,
+    )
+    .parse(input)
 }
 
 fn dot_property(input: Span) -> IResult<Span, DataAccessAtom> {
